@@ -38,7 +38,7 @@ def stream_cfg(kinds, maxlen, rich, dimcheck=True, laws=("AllLaws",), sim=False,
 
 
 def run_streams(ctx, kinds, exh_narrow, exh_wide, sim_num, sim_depth, rich, n_random_concs, dimcheck=True,
-                features=None, tag="default", laws=("AllLaws",), unitgrid_len=0):
+                features=None, tag="default", laws=("AllLaws",), unitgrid_len=0, structure_only=False):
     """Returns the list of mismatches (already recorded as violations)."""
     narrow = [k for k in kinds if k not in WIDE]
     wide = [k for k in kinds if k in WIDE]
@@ -64,7 +64,7 @@ def run_streams(ctx, kinds, exh_narrow, exh_wide, sim_num, sim_depth, rich, n_ra
     concs = concs_for(ctx, n_random_concs)
     cpath = os.path.join(ctx.out, "concs.json")
     json.dump(concs, open(cpath, "w"))
-    mism, summary, _ = run_bin(bindir, "streams", ["replay", allb, cpath], timeout=1500)
+    mism, summary, _ = run_bin(bindir, "streams", ["replay", allb, cpath] + (["--structure"] if structure_only else []), timeout=1500)
     ctx.evaluations += summary.get("replays", 0)
     ctx.traces += summary.get("behaviours", 0)
     ctx.extra.setdefault("replay_summaries", []).append(summary)
@@ -84,7 +84,7 @@ def run_streams(ctx, kinds, exh_narrow, exh_wide, sim_num, sim_depth, rich, n_ra
         beh = json.loads(vlib.nth_line(allb, m["line"]))
         sig = "%s:%s" % (m["kind"], m["what"])
         ctx.violation(sig, {"replay_kind": "streams", "behaviour": beh, "conc": m["conc"], "mismatch": m,
-                            "features": features, "tag": tag},
+                            "features": features, "tag": tag, "structure_only": structure_only},
                       "%s behaviour #%d step %d: %s; expected %s, implementation gave %s (concretisation %s)" % (
                           m["kind"], m["line"], m["step"], m["what"], json.dumps(m["exp"]), json.dumps(m["got"]), json.dumps(m["conc"])))
     return mism, summary, total
@@ -99,7 +99,7 @@ def replay_streams(pid, v):
     cp = os.path.join(out, "replay_one_concs.json")
     json.dump([v["conc"]], open(cp, "w"))
     bindir = build_harness(["streams"], v.get("features"), v.get("tag", "default"))
-    mism, summary, _ = run_bin(bindir, "streams", ["replay", bp, cp])
+    mism, summary, _ = run_bin(bindir, "streams", ["replay", bp, cp] + (["--structure"] if v.get("structure_only") else []))
     return mism[0] if mism else None
 
 
@@ -176,7 +176,8 @@ def c12(ctx):
 @register("C05")
 def c05(ctx):
     p = tier_params(ctx)
-    mism, summary, total = run_streams(ctx, ALL, **p)
+    # C05 is about outcome categories, error identities, resets and purity: numbers are compared by C04/C10/C11/C12
+    mism, summary, total = run_streams(ctx, ALL, structure_only=True, **p)
     finish_streams(ctx, summary, total,
                    "Non-trivial = contains a present sample after an event the kind treats as a reset (or, for kinds "
                    "without resets, at least two present samples).")
